@@ -229,7 +229,7 @@ class LogPaxosWorld(NetWorld):
             for (nm, s), cmd in list(self.first.items()):
                 if nm == nd.name and s not in rep and ("gone", (nm, s)) not in self.flags:
                     self.flags.add(("gone", (nm, s)))
-                    self.viol.append((f"{self.proto}/decision-retracted/{self.conflict_shape(s)}",
+                    self.viol.append((f"{self.proto}/decision-retracted/{self.conflict_shape(s, retract=True)}",
                                       f"node {nm} reported slot {s} decided ({cmd!r}) and later no longer reports it "
                                       f"(commit_index={nd.log.commit_index})"))
             # the state machine is handed decided commands: position i is a report for slot i+1
@@ -252,10 +252,15 @@ class LogPaxosWorld(NetWorld):
                           f"slot {s}: node {n0} reported {c0!r} decided (ballot {b0}), node {nd.name} reports {cmd!r} "
                           f"(ballot {self.ballot_of(nd)})"))
 
-    def conflict_shape(self, s=None, nd=None):
+    def conflict_shape(self, s=None, nd=None, retract=False, fut=None):
         if sum(self.starts.values()) > 1:  # a second leader attempt happened
             if s is None:
                 s = min(self.slot_first, default=None)
+            if retract and s is not None and s not in self.kept_slots and s not in self.deposed_slots:
+                # a retraction is a truncation from some slot <= s: classify by the earliest affected slot class
+                lower = [x for x in self.pre_slots if x <= s]
+                if lower:
+                    s = lower[0]
             if s in self.kept_slots:
                 # a LEADER promised another node's ballot, kept reporting is_leader, and went on issuing Accepts
                 return "takeover-leader-kept-leading-after-promise"
@@ -267,6 +272,10 @@ class LogPaxosWorld(NetWorld):
                 # the slot already held an accepted entry when the later leader began / a Promise carried it:
                 # the new leader was told and ignored it (known: recovery ignores promised logs)
                 return "takeover"
+            if fut is not None and self.own_assigned.get((fut[0], s), ("<none>",)) == fut[1]:
+                # the submitter's own (unacknowledged) entry for the slot was superseded by the new leader's entry,
+                # but its future stayed registered under the slot number and was resolved by the other command
+                return "takeover-future-of-superseded-entry"
             if s in self.passive_slots:
                 # an old leader that never heard of the take-over holds its own unacknowledged entry for the slot
                 # and commits it when the new leader's commit_index arrives (no check which ballot wrote the entry)
@@ -335,7 +344,7 @@ class LogPaxosWorld(NetWorld):
                 dec = self.slot_first.get(slot)
                 if not ok or dec is None or dec[0] != cmd:
                     self.flags.add(("fut", idx))
-                    out.append((f"{self.proto}/future-value/{self.conflict_shape(slot if slot in self.slot_first else None)}",
+                    out.append((f"{self.proto}/future-value/{self.conflict_shape(slot if slot in self.slot_first else None, fut=(nm, cmd))}",
                                 f"submit({cmd!r}) future at {nm} resolved with {v!r}; slot {slot} decided value is "
                                 f"{dec[0] if dec else None!r}"))
         if self.p["live"]:
